@@ -7,7 +7,9 @@ package main
 // apart — in SSA a multi-valued case is an or-chain whose target block is dominated by none of the tests.
 
 import (
+	"go/constant"
 	"go/token"
+	"go/types"
 
 	"golang.org/x/tools/go/ssa"
 )
@@ -23,6 +25,12 @@ func aBool(b bool) aval { return aval{b: b} }
 
 // reachGiven returns the instructions of fn reachable from its entry given the oracle's knowledge.
 func reachGiven(fn *ssa.Function, oracle func(v ssa.Value) (aval, bool), stop ...func(ssa.Instruction) bool) map[ssa.Instruction]bool {
+	return reachGivenW(fn, oracle, nil, stop...)
+}
+
+// reachGivenW additionally reports every concretely known value computed for an instruction to watch
+// (the same instruction may be reported with different values on different paths).
+func reachGivenW(fn *ssa.Function, oracle func(v ssa.Value) (aval, bool), watch func(v ssa.Value, a aval), stop ...func(ssa.Instruction) bool) map[ssa.Instruction]bool {
 	reached := map[ssa.Instruction]bool{}
 	if len(fn.Blocks) == 0 {
 		return reached
@@ -50,6 +58,11 @@ func reachGiven(fn *ssa.Function, oracle func(v ssa.Value) (aval, bool), stop ..
 				if iv, ok := constInt(c); ok {
 					return aInt(iv), true
 				}
+				if c.Value != nil && c.Value.Kind() == constant.Int {
+					if u, ok := constant.Uint64Val(c.Value); ok {
+						return aInt(int64(u)), true // an unsigned constant above MaxInt64: the bits
+					}
+				}
 				return aval{}, false
 			}
 			if a, ok := env[v]; ok {
@@ -73,8 +86,23 @@ func reachGiven(fn *ssa.Function, oracle func(v ssa.Value) (aval, bool), stop ..
 			if len(stop) > 0 && stop[0](in) {
 				return // a call that does not return
 			}
+			if watch != nil {
+				// operands of stores and conversions are reported where they are used
+				for _, op := range in.Operands(nil) {
+					if *op != nil {
+						if a, ok := get(*op); ok {
+							watch(*op, a)
+						}
+					}
+				}
+			}
 			switch x := in.(type) {
 			case *ssa.Phi:
+				if a, ok := oracle(x); ok {
+					// what the caller states about a variable holds wherever the variable is defined
+					env[x] = a
+					continue
+				}
 				for k, ed := range x.Edges {
 					if b.Preds[k] == pred {
 						if a, ok := get(ed); ok {
@@ -90,8 +118,45 @@ func reachGiven(fn *ssa.Function, oracle func(v ssa.Value) (aval, bool), stop ..
 				if !ok1 || !ok2 {
 					continue
 				}
-				if a.isInt && c2.isInt {
+				if a.isInt && c2.isInt && isUnsignedType(x.X.Type()) {
+					// unsigned 64-bit arithmetic (the bits are kept in the int64)
+					ua, ub := uint64(a.i), uint64(c2.i)
 					switch x.Op {
+					case token.EQL:
+						env[x] = aBool(ua == ub)
+					case token.NEQ:
+						env[x] = aBool(ua != ub)
+					case token.LSS:
+						env[x] = aBool(ua < ub)
+					case token.LEQ:
+						env[x] = aBool(ua <= ub)
+					case token.GTR:
+						env[x] = aBool(ua > ub)
+					case token.GEQ:
+						env[x] = aBool(ua >= ub)
+					case token.ADD:
+						env[x] = aInt(int64(ua + ub))
+					case token.SUB:
+						env[x] = aInt(int64(ua - ub))
+					case token.MUL:
+						env[x] = aInt(int64(ua * ub))
+					case token.QUO:
+						if ub != 0 {
+							env[x] = aInt(int64(ua / ub))
+						}
+					case token.REM:
+						if ub != 0 {
+							env[x] = aInt(int64(ua % ub))
+						}
+					}
+				} else if a.isInt && c2.isInt {
+					switch x.Op {
+					case token.MUL:
+						env[x] = aInt(a.i * c2.i)
+					case token.QUO:
+						if c2.i != 0 {
+							env[x] = aInt(a.i / c2.i)
+						}
 					case token.EQL:
 						env[x] = aBool(a.i == c2.i)
 					case token.NEQ:
@@ -138,8 +203,14 @@ func reachGiven(fn *ssa.Function, oracle func(v ssa.Value) (aval, bool), stop ..
 						run(b.Succs[1], b, env)
 					}
 				} else {
-					run(b.Succs[0], b, cp())
-					run(b.Succs[1], b, cp())
+					// the arm that leaves the loop first: the visit budget is global, and the path that
+					// skips a loop is the one whose values are still known
+					s0, s1 := b.Succs[0], b.Succs[1]
+					if canReach(s0, b) && !canReach(s1, b) {
+						s0, s1 = s1, s0
+					}
+					run(s0, b, cp())
+					run(s1, b, cp())
 				}
 				return
 			case *ssa.Jump:
@@ -152,4 +223,42 @@ func reachGiven(fn *ssa.Function, oracle func(v ssa.Value) (aval, bool), stop ..
 	}
 	run(fn.Blocks[0], nil, map[ssa.Value]aval{})
 	return reached
+}
+
+func isUnsignedType(t types.Type) bool {
+	b, ok := t.Underlying().(*types.Basic)
+	return ok && b.Info()&types.IsUnsigned != 0
+}
+
+var reachMemo = map[[2]*ssa.BasicBlock]bool{}
+
+// canReach: there is a path of at least one edge from a to b.
+func canReach(a, b *ssa.BasicBlock) bool {
+	k := [2]*ssa.BasicBlock{a, b}
+	if r, ok := reachMemo[k]; ok {
+		return r
+	}
+	seen := map[*ssa.BasicBlock]bool{}
+	var dfs func(x *ssa.BasicBlock) bool
+	dfs = func(x *ssa.BasicBlock) bool {
+		if x == b {
+			return true
+		}
+		if seen[x] {
+			return false
+		}
+		seen[x] = true
+		for _, s := range x.Succs {
+			if dfs(s) {
+				return true
+			}
+		}
+		return false
+	}
+	r := a == b
+	if !r {
+		r = dfs(a)
+	}
+	reachMemo[k] = r
+	return r
 }
